@@ -40,7 +40,7 @@ Lemma known_sim : forall j, FLn p q j ->
   forall k lbl side T d cls G rho th st t st' A e ae K sg args vs what,
   inv p G rho th st ->
   clauses_match side T cls (ctxtors d) = None -> check_bodies data codata defs G cls = None ->
-  ub_clauses (cids G) cls = true -> ib_clauses m0 cls = true ->
+  ub_clauses (cids G) cls = true -> ib_clauses m0 cls = true -> nc_clauses (cvars G) cls = true ->
   find_cxtor d K = Some sg -> fargs_ok what G args (cxargs sg) = None ->
   shrink_known_cuts (shrink_stmt k (mksenv D codata lbl)) K (cvars (rn_ctx rho args)) (rn_clauses rho cls) st = SOk (t, st') ->
   pfresh A t = true -> lifted_in q st' ->
@@ -48,7 +48,7 @@ Lemma known_sim : forall j, FLn p q j ->
   omap (arg_val e) args = Some vs ->
   beh p q j (CoreSem.select (fs2c_clauses cls) e K vs) ae (arn th t).
 Proof.
-  intros j FL k lbl side T d cls G rho th st t st' A e ae K sg args vs what Hinv Hcm Hcb Hub Hib Hx Hfa Hsh Hpf Hlift He Hvs.
+  intros j FL k lbl side T d cls G rho th st t st' A e ae K sg args vs what Hinv Hcm Hcb Hub Hib Hnc Hx Hfa Hsh Hpf Hlift He Hvs.
   destruct (clauses_match_find _ _ _ _ _ _ Hcm Hx) as (cl0 & Hf & Hn & Hps).
   assert (Hin : In cl0 cls) by (apply find_some in Hf; tauto).
   destruct (ib_clauses_in p _ _ Hib Hin) as [Hibc Hibb].
@@ -88,6 +88,7 @@ Proof.
   eapply (FL b0 k lbl (ctx0 ++ G) _ th st t st'); eauto.
   - apply (check_bodies_in p _ _ (FsClause c0 x0 ctx0 b0) Hcb Hin).
   - rewrite <- ub_cids_app. exact Hubb.
+  - unfold cvars. rewrite map_app. apply (nc_clauses_in _ _ (FsClause c0 x0 ctx0 b0) Hnc Hin).
 Qed.
 
 (* <K(args) | case {..}> *)
@@ -107,6 +108,7 @@ Proof.
   apply start_args_eval in Hrun as (n1 & vs & Hle & Hvs & Hrun); [|exact Hg]. cbn [CoreSem.finish_args cont] in Hrun.
   core_step Hrun Hg n1. cbn [CoreSem.khead CoreSem.interact_val] in Hrun.
   eapply (known_sim n1 (IH n1 ltac:(lia)) k lbl CCns T d cls G rho th st t st' A e ae K sg args vs); eauto.
+  { eapply nc_cut_case_r; eauto. }
   eapply erel_weaken; [exact He | lia | | apply incl_refl].
   intros y [Hy|Hy]; cbn [occurs occ_term]; [left; exact Hy | right; apply occ_term_xcase; assumption].
 Qed.
@@ -128,6 +130,7 @@ Proof.
   apply start_args_eval in Hrun as (n1 & vs & Hle & Hvs & Hrun); [|exact Hg]. cbn [CoreSem.finish_args cont] in Hrun.
   core_step Hrun Hg n1. cbn [CoreSem.cut_with_k CoreSem.interact_val] in Hrun.
   eapply (known_sim n1 (IH n1 ltac:(lia)) k lbl CPrd T d cls G rho th st t st' A e ae K sg args vs); eauto.
+  { eapply nc_cut_case_l; eauto. }
   eapply erel_weaken; [exact He | lia | | apply incl_refl].
   intros y [Hy|Hy]; cbn [occurs occ_term]; [right; exact Hy | left; apply occ_term_xcase; assumption].
 Qed.
